@@ -134,12 +134,14 @@ def to_iter(m, v):
     if v.__class__ is Agg and v.ty == 'Range': return IterObj('range', None, v.f[0], v.f[1])
     if v.__class__ is Agg and v.ty == 'Option': return IterObj('option', v.f[0] if v.disc == 1 else None)
     if v.__class__ is VecObj: return IterObj('vec_values', list(v.items), 0, len(v.items))      # into_iter by value: yields the elements
+    if v.__class__ is SliceRef: return IterObj('slice', v.items, v.lo, v.hi)                     # <&[T] as IntoIterator>::into_iter
     if v.__class__ is Agg:
         f = m.prog.byname.get(f'<{v.ty} as Iterator>::next')
         if f is not None: return IterObj('user', (f, [v]))
     if v.__class__ is Ref:
         t = v.get()
         if t.__class__ is VecObj: return IterObj('slice', t.items, 0, len(t.items))
+        if t.__class__ is SliceRef: return IterObj('slice', t.items, t.lo, t.hi)
         if t.__class__ is IterObj: return t
         return to_iter(m, t)
     raise Unsupported(f'into_iter of {v!r}')
